@@ -22,7 +22,7 @@ func NonCanonical(r *rand.Rand) []byte {
 	n := 1 + r.IntN(4)
 	for i := 0; i < n; i++ {
 		var o []byte
-		switch r.IntN(21) {
+		switch r.IntN(24) {
 		case 18: // vendor options of the vendors whose formats exist, sub-options numbered from 1 with plausible payloads
 			en := []uint32{4491, 9, 311, 2636, 30065, 1271, 42623}[r.IntN(7)]
 			v := be32(en)
@@ -167,6 +167,39 @@ func NonCanonical(r *rand.Rand) []byte {
 			}
 		case 11: // duplicate options of the same code
 			o = append(tlv(8, []byte{0, 1}), tlv(8, []byte{0, 2})...)
+		case 21: // more instances than the RFC foresees inside a container: a 4RD option with several non-map rules and
+			// map rules in any order (RFC 7600 allows one non-map rule; a receiver still has to carry what it got)
+			var v []byte
+			for k := 2 + r.IntN(3); k > 0; k-- {
+				if r.IntN(3) != 0 {
+					v = append(v, tlv(99, []byte{byte(r.UintN(2)) << 7, byte(r.UintN(256)), byte(r.UintN(6)), byte(r.UintN(256))})...)
+				} else {
+					m := []byte{byte(r.UintN(33)), byte(r.UintN(129)), byte(r.UintN(48)), byte(r.UintN(2)) << 7}
+					v = append(v, tlv(98, append(m, make([]byte, 20)...))...)
+				}
+			}
+			o = tlv(97, v)
+		case 22: // ... an IA_NA with two status codes and the same address twice; an IA_PD with the same prefix twice
+			st := tlv(13, []byte{0, byte(r.UintN(7))})
+			a := tlv(5, append(gen4.Bytes(r, 16), 0, 0, 0, 9, 0, 0, 0, 10))
+			px := tlv(26, append([]byte{0, 0, 0, 9, 0, 0, 0, 10, 56}, append(gen4.Bytes(r, 7), make([]byte, 9)...)...))
+			if r.IntN(2) == 0 {
+				o = tlv(3, append(append(append(append(gen4.Bytes(r, 4), 0, 0, 0, 1, 0, 0, 0, 2), st...), append(a, a...)...), st...))
+			} else {
+				o = tlv(25, append(append(append(gen4.Bytes(r, 4), 0, 0, 0, 1, 0, 0, 0, 2), px...), append(px, st...)...))
+			}
+		case 23: // ... singletons twice at the top level: client id, server id, rapid commit, preference, reconfigure accept
+			d := append([]byte{0, 3, 0, 1}, gen4.Bytes(r, 6)...)
+			switch r.IntN(4) {
+			case 0:
+				o = append(tlv(1, d), tlv(1, append([]byte{0, 3, 0, 1}, gen4.Bytes(r, 6)...))...)
+			case 1:
+				o = append(tlv(2, d), tlv(2, d)...)
+			case 2:
+				o = append(tlv(14, nil), tlv(14, nil)...)
+			default:
+				o = append(tlv(7, []byte{byte(r.UintN(256))}), tlv(7, []byte{byte(r.UintN(256))})...)
+			}
 		}
 		opts = append(opts, o...)
 	}
